@@ -226,6 +226,12 @@ func upgradeMassDBFile(sk *SpaceKeeper) error {
 		// make new filename
 		newFilename := fmt.Sprintf("%d_%s_%d%s.massdb", ordinal, args[0], bitLength, tagA)
 		newFilepath := filepath.Join(dir, newFilename)
+		if _, statErr := os.Stat(newFilepath); statErr == nil {
+			// never replace an existing plot file: os.Rename would overwrite it
+			logging.CPrint(logging.WARN, "skip renaming massdb, target already exists",
+				logging.LogFormat{"dir": dir, "old_name": filename, "new_name": newFilename})
+			return
+		}
 		if err = os.Rename(filePath, newFilepath); err != nil {
 			logging.CPrint(logging.ERROR, "fail to rename massdb",
 				logging.LogFormat{"dir": dir, "old_name": filename, "new_name": newFilename, "err": err})
